@@ -64,7 +64,29 @@ def if_trees(space, depth):
     ops = []
     for e in out[:40]:
         ops += [e + 1, e + x, e & y, claripy.Concat(e, x)[space.w - 1 : 0] if space.w > 1 else e, ~e, e == y, claripy.ULT(e, 1), claripy.If(e == x, e, y)]
-    return out + ops
+    # If whose branches use the same variadic operator with different operand counts (burrow_ite)
+    import operator
+
+    one = claripy.BVV(1 & mask(space.w), space.w)
+    atoms = [x, y, one, x ^ y]
+    var = []
+    for f in (operator.add, operator.and_, operator.or_, operator.xor, operator.mul):
+        for a, b, d, e in itertools.product(atoms, repeat=4):
+            try:
+                t2 = f(a, b)
+                t3 = f(f(a, d), e)
+                for cond in (c, d if isinstance(d, claripy.ast.Bool) else claripy.ULT(x, y)):
+                    var.append(claripy.If(cond, t2, t3))
+                    var.append(claripy.If(cond, t3, t2))
+            except ClaripyError:
+                pass
+    seen = set()
+    uniq = []
+    for e_ in var:
+        if id(e_) not in seen and e_.op == "If":
+            seen.add(id(e_))
+            uniq.append(e_)
+    return out + ops + uniq[:: max(1, len(uniq) // 240)]
 
 
 def make_pool(space, depth2_stride):
